@@ -199,11 +199,20 @@ def run(ctx):
             inner = [lp for lp in ast.walk(f) if isinstance(lp, ast.For) and any(x is upd[0] for x in ast.walk(lp))]
             inner_ok = any(same_expr(lp.iter, "range(i)") and same_expr(lp.target, "j") for lp in inner) \
                 and any(same_expr(lp.target, "i") and isinstance(lp.iter, ast.Call) and call_name(lp.iter) == "range" and len(lp.iter.args) == 1 for lp in inner)
-            ok_ms = isinstance(upd[0].test.ops[0], ast.Lt) and spec("not is_clustered_v[i]") in known and spec("not is_clustered_v[j]") in known and inner_ok \
+            # the search visits every pair: nothing leaves the two search loops early
+            nest = [lp for lp in inner if same_expr(lp.target, "i") or same_expr(lp.target, "j")]
+            exhaustive = not any(isinstance(x, (ast.Break, ast.Return, ast.Raise)) for lp in nest for x in ast.walk(lp))
+            ok_ms = exhaustive and isinstance(upd[0].test.ops[0], ast.Lt) and spec("not is_clustered_v[i]") in known and spec("not is_clustered_v[j]") in known and inner_ok \
                 and any(isinstance(b, ast.Assign) and same_expr(b.targets[0], "j_min") and same_expr(b.value, "j") for b in upd[0].body) \
                 and any(isinstance(b, ast.Assign) and same_expr(b.targets[0], "i_min") and same_expr(b.value, "i") for b in upd[0].body)
         ctx.ob("R4.min-search", rel, q, "for i: for j in range(i): skip clustered; dist < dist_min", ok_ms and "if i_min == -1 or j_min == -1:" in t,
                "the closest pair is searched over the unclustered lower triangle", f.lineno)
+        # every sweep over the nodes (row sums, corrected distances, search, update) visits all of them: the only way out of a
+        # `for` is its end - `break` belongs to the main `while` loop alone
+        early = [x for lp in ast.walk(f) if isinstance(lp, ast.For) for x in ast.walk(lp) if isinstance(x, (ast.Break, ast.Return))]
+        ctx.ob("R4.full-sweeps", rel, q, "no for-loop over the nodes is left early", not early,
+               "a sweep over the nodes that stops at the first clustered node leaves stale distances / misses the closest pair"
+               + (f" (line {early[0].lineno})" if early else ""), f.lineno)
         ctx.ob("R4.input-checks", rel, q, "symmetric, no NaN, finite, non-negative",
                "np.allclose(distances.T, distances)" in t and "np.isnan(distances).any()" in t and "(distances < 0).any()" in t
                and "(distances >= MAX_FLOAT).any()" in t, "the distance matrix must be validated", f.lineno, nontrivial=False)
